@@ -466,10 +466,39 @@ let run_mac_history (line : string) : string =
                  (dec_of_n (get_rx_delay !m true false)) (dec_of_n (get_rx_delay !m true true)) :: !out
       | "rxcfg" :: _ ->
         (match x_rxc_config !m with Val rf -> out := rf_str rf :: !out | Panic -> raise (Stop "PANIC") | OutOfDraws -> raise (Stop "HANG"))
+      | "patch" :: kvs ->
+        (match !m.m_state with
+         | Joined s0 ->
+           let s = ref s0 in
+           List.iter (fun kv -> let i = String.index kv '=' in
+             let k = String.sub kv 0 i and v = String.sub kv (i + 1) (String.length kv - i - 1) in
+             match k with
+             | "up" -> s := { !s with ss_fcnt_up = n_of_dec v }
+             | "down" -> s := { !s with ss_fcnt_down = (if v = "none" then None else Some (n_of_dec v)) }
+             | _ -> s := { !s with ss_adr_ack_cnt = n_of_dec v }) kvs;
+           m := with_state !m (Joined !s); out := "patched" :: !out
+         | _ -> out := "nosession" :: !out)
       | "serde" :: _ -> out := (match !m.m_state with Joined _ -> "restored" | _ -> "nosession") :: !out
       | _ -> out := "BADOP" :: !out) (List.tl parts)
   with Stop s -> out := s :: !out);
   String.concat " ; " (List.rev !out)
+
+let () =
+  let opt_last s = if s = "none" then None else Some (n_of_dec s) in
+  register "nfd" (function
+    | [last; w] -> (match x_next_fcnt_down (opt_last last) (n_of_dec w) with Some n -> dec_of_n n | None -> "none")
+    | _ -> "BADARGS");
+  register "nfd_sweep" (function
+    | [last] ->
+      let l = opt_last last in
+      let h = ref 0 and acc = ref 0 in
+      for w = 0 to 65535 do
+        (match x_next_fcnt_down l (n_of_int w) with
+         | Some n -> incr acc; h := dg_step !h (int_of_n n)
+         | None -> h := dg_step !h (-1))
+      done;
+      Printf.sprintf "%d %d" !h !acc
+    | _ -> "BADARGS")
 
 let chip_index = function
   | "sx1261" | "sx1262" | "stm32wl" -> 0 | "sx1276" -> 1 | "sx1272" -> 2 | "lr1110" -> 3
